@@ -1065,7 +1065,8 @@ err_t dstuVerify(const dstu_params* params, size_t ld, const octet hash[],
 	// шаг 3: проверить ld
 	if (!memIsValid(pubkey, 2 * ec->f->no) || 
 		ld % 16 != 0 || ld < 16 * order_no ||
-		!memIsValid(hash, hash_len))
+		!memIsValid(hash, hash_len) ||
+		!memIsValid(sig, O_OF_B(ld)))
 	{
 		dstuEcClose(ec);
 		return ERR_BAD_INPUT;
